@@ -195,14 +195,20 @@ class C07:
             cls = stack[-1] + ("%d" % sum(1 for x in stack if x == "sec") if stack[-1] == "sec" else "")
         return cls
 
+    # annotations pending in front of undeclared items (both flags set), at every level
+    UNKNOWN_RICH = ("#:c1 NL unk = 1 NL #:c2 NL i = 2 NL /*:c3 unk2 += { a , b } NL #:c4 NL unk3 t { x = 1 } NL s = v NL #:c5 NL unkf ( a ) NL "
+                    "#:c6 NL tm a { #:c7 NL zz = 1 NL x = 2 NL #:c8 NL zz2 { } } NL #:c9 NL unk4 { } NL #:c10 NL il = { 1 } NL #:c11 NL")
+
     def error_points(self, tier):
         cases = []
-        for name, text in RICH.items():
+        for name, text in list(RICH.items()) + [("mixed", self.UNKNOWN_RICH)]:
             toks = T(text)
             mean = [i for i, t in enumerate(toks) if t[0] in ("s", "p")]
             variants = [(0, False, "buf"), (F_COMMENTS, True, "buf")]
             if tier == "thorough":
                 variants += [(F_COMMENTS | F_NOCASE, False, "file"), (F_IGNORE_UNKNOWN, True, "file")]
+            if text is self.UNKNOWN_RICH:
+                variants = [(F_COMMENTS | F_IGNORE_UNKNOWN, False, "buf"), (F_COMMENTS | F_IGNORE_UNKNOWN | F_NOCASE, True, "file")]
             for flags, sp, via in variants:
                 base = {"schema": name, "flags": flags, "searchpath": sp, "via": via}
                 cases.append(dict(base, tokens=toks, classes=["complete-text"], nontrivial=True, then_print=True))
@@ -324,8 +330,12 @@ class C07:
                 return {"schema": "c07api", "flags": draw(st.sampled_from([0, F_COMMENTS, F_COMMENTS | F_NOCASE])),
                         "ops": [o[1] for o in ops], "classes": ["history-random"], "nontrivial": True}
             sc = draw(st.sampled_from(names))
-            fl = draw(st.sampled_from([0, F_COMMENTS, F_IGNORE_UNKNOWN, F_COMMENTS | F_NOCASE]))
+            fl = draw(st.sampled_from([0, F_COMMENTS, F_IGNORE_UNKNOWN, F_COMMENTS | F_NOCASE, F_COMMENTS | F_IGNORE_UNKNOWN]))
             toks = draw(gen_text.text_tokens(HAND[sc], fl, max_items=6, bad_p=0.02))
+            if fl & F_COMMENTS:
+                for _ in range(draw(st.integers(0, 3))):
+                    toks = list(toks)
+                    toks.insert(draw(st.integers(0, len(toks))), ["c", draw(st.sampled_from([" note", "", "x"])), draw(st.sampled_from(["hash", "block"]))])
             toks = draw(gen_text.mutate_tokens(toks, 2))
             if draw(st.booleans()) and toks:
                 toks = toks[:draw(st.integers(0, len(toks)))]
